@@ -216,3 +216,65 @@ example : resolveTokenL false [msgD] = .ok [blkT'] := by decide +kernel
 example : (authorize C02.cfg0 { authority := blkT', blocks := [] ++ [blkB] } s).2 = .ok := by decide +kernel
 
 end Biscuit.C02Wire
+
+/-! ### 7. The gate of the code is the gate of the theorems
+
+Since fix c9a639e the library's check covers variable names as well, so the stronger
+predicate `blocksDeclaredV` used above *is* the predicate `Unmarshal` applies. -/
+
+namespace Biscuit.C02Wire
+open Biscuit Biscuit.Wire
+
+theorem atomDeclaredV_eq (t : SymTable) : atomDeclaredV t = atomDeclared t := by
+  funext a
+  cases a <;> rfl
+
+theorem termDeclaredV_eq (t : SymTable) : termDeclaredV t = termDeclared t := by
+  funext x
+  cases x <;> simp [termDeclaredV, termDeclared, atomDeclaredV_eq]
+
+theorem predDeclaredV_eq (t : SymTable) : predDeclaredV t = predDeclared t := by
+  funext p
+  simp [predDeclaredV, predDeclared, termDeclaredV_eq]
+
+theorem ruleDeclaredV_eq (t : SymTable) : ruleDeclaredV t = ruleDeclared t := by
+  funext r
+  rw [Bool.eq_iff_iff]
+  simp only [ruleDeclaredV, ruleDeclared, predDeclaredV_eq, Bool.and_eq_true, List.all_eq_true]
+  constructor
+  · rintro ⟨h12, h3⟩
+    refine ⟨h12, fun e he o ho => ?_⟩
+    have := h3 e he o ho
+    cases o <;> simp_all [opDeclaredV, termDeclaredV_eq]
+  · rintro ⟨h12, h3⟩
+    refine ⟨h12, fun e he o ho => ?_⟩
+    have := h3 e he o ho
+    cases o <;> simp_all [opDeclaredV, termDeclaredV_eq]
+
+theorem blockDeclaredV_eq (t : SymTable) (m : BlockMsg) : blockDeclaredV t m = blockDeclared t m := by
+  have hc : checkDeclaredV t = fun c => c.queries.all (ruleDeclared t) := by
+    funext c
+    simp [checkDeclaredV, ruleDeclaredV_eq]
+  simp only [blockDeclaredV, blockDeclared, predDeclaredV_eq, ruleDeclaredV_eq, hc]
+
+theorem blocksDeclaredV_eq (t : SymTable) (msgs : List BlockMsg) :
+    blocksDeclaredV t msgs = blocksDeclared t msgs := by
+  induction msgs generalizing t with
+  | nil => rfl
+  | cons m ms ih =>
+    show (blockDeclaredV _ m && blocksDeclaredV _ ms) = (blockDeclared _ m && blocksDeclared _ ms)
+    rw [blockDeclaredV_eq, ih]
+
+/-- **C02 for every token `Unmarshal` lets through**: whatever block is appended on the
+wire, the earlier blocks resolve as before and an accepted T+B means an accepted T. -/
+theorem unmarshal_attenuation_monotone (cfg : EvalCfg) (p : Bool) (bs : Bytes) (parsed : Parsed)
+    (hU : unmarshal bs = .ok parsed) (b : BlockMsg) (s : AuthState) (a : Block) (rest : List Block) (bB : Block)
+    (hTB : resolveTokenL p (parsed.blocks ++ [b]) = .ok (a :: rest ++ [bB])) :
+    resolveTokenL p parsed.blocks = .ok (a :: rest) ∧
+    ((authorize cfg { authority := a, blocks := rest ++ [bB] } s).2 = .ok →
+     (authorize cfg { authority := a, blocks := rest } s).2 = .ok) := by
+  have hd := unmarshal_ok_declared bs parsed hU
+  rw [← blocksDeclaredV_eq] at hd
+  exact wire_attenuation_monotone cfg p parsed.blocks b s hd a rest bB hTB
+
+end Biscuit.C02Wire
